@@ -390,6 +390,61 @@ TARGETS = [
                   self_fields={"compression": "compressionIsNone"}, patterns={"Compression::None": "true"},
                   funcs={"Vec::with_capacity": "()", "shannon_entropy": "()"},
                   exprs={"entropy <= 6.0": "entropyLow"}, ignore_stmts=["content."], block_match=True)),
+    # ---- reader: the value of one property of an entry (`PropertyBuilderTrait::create`)
+    dict(name="intPropertyCreate", group="Parse", file="src/reader/directory_pack/builder/property.rs", fn="create",
+         after=r"impl PropertyBuilderTrait for IntProperty",
+         enums=[dict(rust="ByteSize", file="src/bases/types/byte_size.rs", discriminants=True)],
+         cfg=dict(params=[("e", "Bytes"), ("offset", N), ("size_", N), ("default", "Option Nat"), ("deported", "Option (Nat × Nat)"),
+                          ("getData", "Nat → Nat → Option Nat → Outcome Bytes")],
+                  ret="Nat", outcome=True, stateful=False,
+                  self_fields={"offset": "offset", "size": "size_", "default": "default", "deported": "deported"},
+                  reads_at={"read_u8": "entryLE e {0} 1", "read_u16": "entryLE e {0} 2", "read_u32": "entryLE e {0} 4", "read_u64": "entryLE e {0} 8",
+                            "read_usized": "entryLE e {0} {1}", "read_i8": "entryLEs e {0} 1", "read_i16": "entryLEs e {0} 2",
+                            "read_i32": "entryLEs e {0} 4", "read_i64": "entryLEs e {0} 8", "read_isized": "entryLEs e {0} {1}"},
+                  try_methods={("value_store", "get_data"): "getData value_store {0} {1}"},
+                  slice_parsers={"data_parser": "value_data"}, call_raw={"SliceParser::new": "()"})),
+    dict(name="signedPropertyCreate", group="Parse", file="src/reader/directory_pack/builder/property.rs", fn="create",
+         after=r"impl PropertyBuilderTrait for SignedProperty",
+         enums=[dict(rust="ByteSize", file="src/bases/types/byte_size.rs", discriminants=True)],
+         cfg=dict(params=[("e", "Bytes"), ("offset", N), ("size_", N), ("default", "Option Int"), ("deported", "Option (Nat × Nat)"),
+                          ("getData", "Nat → Nat → Option Nat → Outcome Bytes")],
+                  ret="Int", outcome=True, stateful=False,
+                  self_fields={"offset": "offset", "size": "size_", "default": "default", "deported": "deported"},
+                  reads_at={"read_u8": "entryLE e {0} 1", "read_u16": "entryLE e {0} 2", "read_u32": "entryLE e {0} 4", "read_u64": "entryLE e {0} 8",
+                            "read_usized": "entryLE e {0} {1}", "read_i8": "entryLEs e {0} 1", "read_i16": "entryLEs e {0} 2",
+                            "read_i32": "entryLEs e {0} 4", "read_i64": "entryLEs e {0} 8", "read_isized": "entryLEs e {0} {1}"},
+                  try_methods={("value_store", "get_data"): "getData value_store {0} {1}"},
+                  slice_parsers={"data_parser": "value_data"}, call_raw={"SliceParser::new": "()"})),
+    dict(name="contentPropertyCreate", group="Parse", file="src/reader/directory_pack/builder/property.rs", fn="create",
+         after=r"impl PropertyBuilderTrait for ContentProperty",
+         cfg=dict(params=[("bs", "Bytes"), ("pack_id_default", "Option Nat"), ("pack_id_size", N), ("content_id_size", N)],
+                  ret="(Nat × Nat)", outcome=True, parser="seq_parser",
+                  self_fields={"pack_id_default": "pack_id_default", "pack_id_size": "pack_id_size", "content_id_size": "content_id_size"},
+                  reads={"read_usized": "takeLE bs {0}"}, funcs={"ContentAddress::new": "({0}, {1})"},
+                  try_exprs={"parser.create_parser(self.offset)": "(Outcome.ok ())"})),
+    dict(name="arrayPropertyCreate", group="Parse", file="src/reader/directory_pack/builder/property.rs", fn="create",
+         after=r"impl PropertyBuilderTrait for ArrayProperty",
+         cfg=dict(params=[("bs", "Bytes"), ("array_len_size", "Option Nat"), ("fixed_array_len", N), ("deported_array_info", "Option (Nat × Nat)"),
+                          ("default", "Option (Nat × Bytes × Option Nat)")],
+                  ret="(Option Nat × Bytes × Option (Nat × Nat))", outcome=True, stateful=False, parser="seq_parser",
+                  self_fields={"array_len_size": "array_len_size", "fixed_array_len": "fixed_array_len",
+                               "deported_array_info": "deported_array_info", "default": "default"},
+                  reads={"read_usized": "takeLE bs {0}"}, read_calls={"BaseArray::parse": "takeBytes bs {0}"},
+                  try_exprs={"parser.create_parser(self.offset)": "(Outcome.ok ())"},
+                  effect_prefixes={"self.deported_array_info.as_ref().map(":
+                                   "(match deported_array_info with | none => Outcome.ok none | some (_, store) => (unwrapOpt value_id).bind fun v => .ok (some (store, v)))"},
+                  funcs={"Array::new": "({0}, {1}, {3})", "Extend::new": "({0}, {1})", "Arc::clone": "{0}"})),
+    # ---- creator: a content enters the open cluster (blob index, end offset, returned address)
+    dict(name="clusterAddContent", group="Content", file="src/creator/content_pack/cluster.rs", fn="add_content",
+         cfg=dict(params=[("offsets", "List Nat"), ("index", N), ("content_size", N)], ret="(List Nat × (Nat × Nat))",
+                  partial=True, assert_panics=True, no_loops=True,
+                  self_fields={"index": "index"}, paths={"MAX_BLOBS_PER_CLUSTER": "Consts.maxBlobsPerCluster"},
+                  exprs={"self.offsets.len()": "offsets.length", "content.size()": "content_size",
+                         "self.offsets.last().unwrap_or(&0)": "(offsets.getLast?.getD 0)",
+                         "Ok(ContentInfo::new(self.index, BlobIdx::from(idx)))": "(offsets, (index, idx))"},
+                  methods={"into_u64": "{recv}"},
+                  ignore_stmts=["self.data.push("],
+                  push_stmts={"self.offsets.push(new_offset)": ("offsets", "new_offset")})),
 ]
 
 
@@ -556,6 +611,7 @@ def apply_enums(t):
                     raise rs2lean.Untranslatable(f"enum {en['rust']}: variant {v} has no discriminant")
                 prev = int(rs2lean.int_literal(disc))
                 cfg.setdefault("paths", {})[f"{en['rust']}::{v}"] = rs2lean.int_literal(disc)
+                cfg.setdefault("patterns", {})[f"{en['rust']}::{v}"] = rs2lean.int_literal(disc)
                 if en.get("self_prefix"):
                     cfg.setdefault("paths", {})[f"Self::{v}"] = rs2lean.int_literal(disc)
             continue
@@ -600,6 +656,9 @@ def unwrapOpt {α : Type} : Option α → Outcome α
 
 def takeLEs (bs : Bytes) (n : Nat) : Outcome (Int × Bytes) :=
   (takeLE bs n).bind fun (v, r) => .ok (signExtend v n, r)
+
+def entryLEs (e : Bytes) (off n : Nat) : Outcome Int :=
+  (entryLE e off n).bind fun v => .ok (signExtend v n)
 
 """}
 GROUP_ORDER = ["Bytes", "Content", "Dir", "Order", "Search", "View", "Check", "Proto", "Pipe", "Sync", "Fs", "Lookup", "Stats", "Entry", "Parse"]
